@@ -28,6 +28,8 @@ def canon(o, fn_names=None, _seen=None):
     if t is str:
         return o
     if t is int:
+        if o.bit_length() > 12000:      # str() of such an int raises ValueError (int/str conversion limit)
+            return ['i', 'hex', hex(o)]
         return ['i', str(o)]
     if t is float:
         return ['f', repr(o)]
